@@ -59,9 +59,11 @@ var c17Tricky = []struct{ text, kind string }{
 	{"$$select  from$$", "dollar"}, {"$t$ it's  select $t$", "dollar"}, {"$$\n  select  \n\n\n\twhere $$", "dollar"},
 	{"'''tri  select 'x' from'''", "string"}, {"'''tri  \n\n\n\t select  \n'''", "string"},
 	{"/* select  from */", "block-comment"}, {"/* it's */", "block-comment"}, {"/* multi  \n\n\n \tselect  \n end */", "block-comment"}, {"/**/", "block-comment"}, {"/* \"open */", "block-comment"},
+	// bytes that are not valid UTF-8 inside literals and comments (data from another encoding): copied, never re-encoded
+	{"'a\xffb select'", "string"}, {"\"q\xfe from\"", "qident"}, {"/* \xc3 select */", "block-comment"}, {"$$\xe9t\xe9 where$$", "dollar"},
 }
 
-var c17LineComments = []string{"-- select  from", "-- it's", "--", "-- \"open", "-- /* where", "-- trailing note", "--select", "-- voil\u00e0", "-- \u00c5"}
+var c17LineComments = []string{"-- select  from", "-- it's", "--", "-- \"open", "-- /* where", "-- trailing note", "--select", "-- voil\u00e0", "-- \u00c5", "-- caf\xe9 select"}
 
 var c17Idents = []string{"a", "b1", "col_2", "tbl", "x", "users", "_tmp", "selectx", "fromage", "a1b2", "naïve", "voilà", "\u00c5", "@from", ":limit", "@Where", "\u017fet", "l\u0131ke", "\u0131n"}
 
@@ -803,6 +805,10 @@ func c17LSP(a *ChildArgs) {
 				}
 			}
 			return "", false
+		}
+		if !utf8.ValidString(t.S) {
+			a.Rec.Count("lsp_skipped_not_utf8", 1) // the protocol carries text as JSON strings: such bytes cannot reach the server
+			return
 		}
 		f1, ok := format(t.S)
 		if !ok {
